@@ -339,3 +339,76 @@ func GenPerForkFlags(r *hx.Rng, stageCmd string) (*Program, map[string]int) {
 	p.Top = &Call{ID: "TOPF", Callee: "TOPF"}
 	return p, stats
 }
+
+// GenNestedDynamicMerge builds a program of the family "merged output of a
+// map call nested in a map call, both sized at run time": OUTER is mapped
+// over the output of a fast stage, INNER inside it over the output of a slow
+// one, and what INNER returns comes from a stage that depends on neither.
+// The consumer of the merged grid has nothing to wait for but the two sizes:
+// it must still not start before the slow producer has finished.
+func GenNestedDynamicMerge(r *hx.Rng, stageCmd string) (*Program, map[string]int) {
+	stats := map[string]int{}
+	p := &Program{StageCmd: stageCmd, Delays: map[string]int{}}
+	arr := func(n int) hx.JV {
+		var xs []hx.JV
+		for i := 0; i < n; i++ {
+			xs = append(xs, hx.JInt(int64(i+1)))
+		}
+		return hx.JArr(xs)
+	}
+	mkSrc := func(name string, n int) *Stage {
+		st := &Stage{Name: name, MainOuts: map[string]*SExp{}, ChunkOutsB: map[string]*SExp{}}
+		st.Ins = []Field{{"i0", TInt}}
+		st.Outs = []Field{{"vals", TArr(TInt)}}
+		st.MainOuts["vals"] = &SExp{K: "lit", Lit: arr(n)}
+		return st
+	}
+	no, ni := 1+r.Intn(3), 1+r.Intn(3)
+	stats[fmt.Sprintf("nested_dynamic_merge_%dx%d", no, ni)]++
+	fast, slow := mkSrc("PFAST", no), mkSrc("QSLOW", ni)
+	slowOuter := r.Intn(3) == 0
+	if slowOuter {
+		// the other way round: the outer size arrives last
+		p.Delays["PFAST"] = 900 + r.Intn(600)
+		stats["nested_dynamic_merge_slow_outer"]++
+	} else {
+		p.Delays["QSLOW"] = 900 + r.Intn(600)
+	}
+	nouse := &Stage{Name: "NOUSE", MainOuts: map[string]*SExp{}, ChunkOutsB: map[string]*SExp{}}
+	nouse.Ins = []Field{{"i0", TInt}}
+	nouse.Outs = []Field{{"o0", TInt}}
+	nouse.MainOuts["o0"] = &SExp{K: "arg", Name: "i0"}
+	sink := &Stage{Name: "SINK", MainOuts: map[string]*SExp{}, ChunkOutsB: map[string]*SExp{}}
+	sink.Ins = []Field{{"grid", TArr(TArr(TInt))}}
+	sink.Outs = []Field{{"o0", TArr(TArr(TInt))}}
+	sink.MainOuts["o0"] = &SExp{K: "arg", Name: "grid"}
+	p.Stages = []*Stage{fast, slow, nouse, sink}
+	inner := &Pipeline{Name: "INNERM", Ins: []Field{{"x", TInt}}, Outs: []Field{{"n", TInt}}}
+	inner.Calls = []*Call{{ID: "NOUSE", Callee: "NOUSE", Binds: []Bind{{Param: "i0", E: Lit(hx.JInt(int64(1 + r.Intn(9))))}}}}
+	if r.Bool() {
+		// ... or does use the element
+		inner.Calls[0].Binds[0].E = &Exp{K: "ref", Src: "self", Out: "x"}
+		stats["nested_dynamic_merge_uses_element"]++
+	}
+	// (a pipeline input has to be used by some call)
+	inner.Calls = append(inner.Calls, &Call{ID: "USEX", Callee: "NOUSE", Binds: []Bind{{Param: "i0", E: &Exp{K: "ref", Src: "self", Out: "x"}}}})
+	inner.Ret = []Bind{{Param: "n", E: &Exp{K: "ref", Src: "NOUSE", Out: "o0"}}}
+	outer := &Pipeline{Name: "OUTERM", Ins: []Field{{"y", TInt}, {"qs", TArr(TInt)}}, Outs: []Field{{"b", TArr(TInt)}}}
+	outer.Calls = []*Call{{ID: "INNERM", Callee: "INNERM", Mapped: "arr",
+		Binds: []Bind{{Param: "x", E: &Exp{K: "ref", Src: "self", Out: "qs"}, Split: true}}}}
+	outer.Calls = append(outer.Calls, &Call{ID: "USEY", Callee: "NOUSE", Binds: []Bind{{Param: "i0", E: &Exp{K: "ref", Src: "self", Out: "y"}}}})
+	outer.Ret = []Bind{{Param: "b", E: &Exp{K: "ref", Src: "INNERM", Out: "n"}}}
+	top := &Pipeline{Name: "TOPM", Ins: []Field{{"seed", TInt}}, Outs: []Field{{"grid", TArr(TArr(TInt))}}}
+	top.Calls = []*Call{
+		{ID: "PFAST", Callee: "PFAST", Binds: []Bind{{Param: "i0", E: &Exp{K: "ref", Src: "self", Out: "seed"}}}},
+		{ID: "QSLOW", Callee: "QSLOW", Binds: []Bind{{Param: "i0", E: &Exp{K: "ref", Src: "self", Out: "seed"}}}},
+		{ID: "OUTERM", Callee: "OUTERM", Mapped: "arr", Binds: []Bind{
+			{Param: "y", E: &Exp{K: "ref", Src: "PFAST", Out: "vals"}, Split: true},
+			{Param: "qs", E: &Exp{K: "ref", Src: "QSLOW", Out: "vals"}}}},
+		{ID: "SINK", Callee: "SINK", Binds: []Bind{{Param: "grid", E: &Exp{K: "ref", Src: "OUTERM", Out: "b"}}}},
+	}
+	top.Ret = []Bind{{Param: "grid", E: &Exp{K: "ref", Src: "SINK", Out: "o0"}}}
+	p.Pipelines = []*Pipeline{inner, outer, top}
+	p.Top = &Call{ID: "TOPM", Callee: "TOPM", Binds: []Bind{{Param: "seed", E: Lit(hx.JInt(int64(r.Intn(1000))))}}}
+	return p, stats
+}
